@@ -36,40 +36,89 @@ example : ∀ l ∈ [Label.memSet [] 1 [([1], [2])], Label.rollback [9], Label.r
     l.pendingOnly = true := by
   intro l hl; simp at hl; rcases hl with rfl | rfl | rfl | rfl <;> rfl
 
-/-- full statement aimed at for Commit: whatever MemSet requests were served in between, committing a root under
-which a pending tree was stored writes that tree (at least its root record exists afterwards). -/
-def CommitExactFull : Prop :=
+/-- **memSet_empty_keeps_pending** (/repo e6adcc5) — an empty `MemSet` whose parent hash has a pending entry leaves
+the store exactly as it was (`LoadOrStore`). -/
+theorem memSet_empty_keeps_pending (H : Bytes → Bytes) (s : Store) (r : Bytes) (bh : Nat) (x : Option Node)
+    (h : lookupTree s.trees r = some x) : memSet H s r bh [] = (.ok r, s) := by
+  simp [memSet, h]
+
+/-- **commit_exact** — a pending update stays pending whatever other pending updates are computed: after *any*
+sequence of `MemSet` requests (any parents, heights, writes — empty ones on top of this very root included) there
+is still a hashed, unsaved tree stored under its root `r`, and `Commit r`, when it answers ok, has written the
+record of `r`: the committed root exists in the database.  (`PendOK`: pending trees are stored under their own root
+key and unsaved — true of every entry `MemSet` creates, `memSet_pending`.)  What the saved tree then reads as is
+`commit_exact_content`. -/
+theorem commit_exact (H : Bytes → Bytes) (s : Store) (hp : PendOK s) (r : Bytes) (n : Node)
+    (hn : lookupTree s.trees r = some (some n)) (ls : List Label) (hl : ∀ l ∈ ls, l.isMemSet = true)
+    (s2 : Store) (hc : commit (run H s ls) r = (.ok r, s2)) : s2.db[r]? ≠ none := by
+  obtain ⟨hp', keep⟩ := run_memSets_pending H ls hl s hp
+  obtain ⟨n', hn'⟩ := keep r n hn
+  obtain ⟨hk, hper⟩ := hp' r n' hn'
+  unfold commit at hc
+  simp only [hn'] at hc
+  cases hs : save (run H s ls).cfg n' (run H s ls).db with
+  | none => simp [hs] at hc
+  | some pr =>
+    obtain ⟨n'', db'⟩ := pr
+    simp only [hs, Prod.mk.injEq, true_and] at hc
+    subst hc
+    simpa [Store.cacheTree] using save_root_record _ n' n'' _ db' r hs hk hper
+
+/-- non-vacuity of `PendOK` and of a pending entry: the store right after one non-empty `MemSet` on the empty
+state (for any hash function). -/
+example (H : Bytes → Bytes) : PendOK (memSet H (Store.new Cfg.default) [] 1 [([1], [2])]).2 :=
+  (memSet_pending H _ (by intro r n h; simp [Store.new, lookupTree] at h) [] 1 [([1], [2])]).1
+
+/-- the statement `commit_exact` makes, for the store BEFORE e6adcc5 (`memSetOld`: the empty-KV branch overwrote the
+entry): one MemSet in between, Commit ok ⇒ the root record exists. -/
+def CommitExactOld : Prop :=
   ∀ (H : Bytes → Bytes) (s : Store) (r : Bytes) (n : Node), lookupTree s.trees r = some (some n) →
     ∀ (p : Bytes) (bh : Nat) (kvs : List (Bytes × Bytes)) (s2 : Store),
-      commit (memSet H s p bh kvs).2 r = (.ok r, s2) → s2.db[r]? ≠ none
+      commit (memSetOld H s p bh kvs).2 r = (.ok r, s2) → s2.db[r]? ≠ none
 
-/-- the mechanism of the finding, for every state: an empty `MemSet` whose parent hash is `r` replaces whatever is
-pending under `r` by the "nothing to do" marker … -/
-theorem memSet_empty_drops_pending (H : Bytes → Bytes) (s : Store) (r : Bytes) (bh : Nat) :
-    (memSet H s r bh []).1 = .ok r ∧ lookupTree (memSet H s r bh []).2.trees r = some none := by
-  simp [memSet, lookupTree_storeTree_self]
-
-/-- … and `Commit` of that marker reports success without writing anything. -/
-theorem commit_marker_writes_nothing (s : Store) (r : Bytes) (h : lookupTree s.trees r = some none) :
-    (commit s r).1 = .ok r ∧ (commit s r).2.db = s.db := by
-  simp [commit, h]
-
-/-- **commit_exact_full_false** — witness (S-C04): a pending leaf under `r`, an empty MemSet with parent `r`, then
-Commit `r`: reply "ok r", no record for `r`.  Replayed on the real code by `h_c04`
-(KNOWN-FINDING C04|Store.Commit|committed-value-unreadable-after-empty-MemSet-on-pending-parent). -/
-theorem commit_exact_full_false : ¬ CommitExactFull := by
+/-- **commit_exact_old_false** — regression witness (S-C04, fixed by e6adcc5): a pending leaf under `r`, an empty
+MemSet with parent `r`, then Commit `r`: reply "ok r", no record for `r`. -/
+theorem commit_exact_old_false : ¬ CommitExactOld := by
   intro h
   let n : Node := .leaf [1] [2] ⟨some [7], false⟩
   let s : Store := ⟨Cfg.default, {}, [([7], some n)], {}⟩
   have := h (fun x => x) s [7] n (by simp [s, lookupTree]) [7] 5 []
-    ⟨Cfg.default, {}, [], {}⟩ (by simp [s, memSet, commit, lookupTree, storeTree])
+    ⟨Cfg.default, {}, [], {}⟩ (by simp [s, memSetOld, commit, lookupTree, storeTree])
   simp at this
 
-/-- **commit_exact_partial** — with the hypothesis that the pending tree is still the entry under `r` when Commit
-runs (i.e. no empty MemSet was served with `r` as parent in between — exactly what `commit_exact_full_false`
-violates), and `Consistent` (no key receives two different records, as in `C01.load_save_partial`): Commit makes
+/-- `Commit` of the "nothing to do" marker (an empty update on a parent that was *not* pending) reports success
+without writing anything — the parent is a committed root already. -/
+theorem commit_marker_writes_nothing (s : Store) (r : Bytes) (h : lookupTree s.trees r = some none) :
+    (commit s r).1 = .ok r ∧ (commit s r).2.db = s.db := by
+  simp [commit, h]
+
+/-- **second_commit_notfound** — `Commit` consumes the entry: a second `Commit` of the same root (the node issues
+one per block, so an empty block on a block whose state was pending leads to two) finds nothing, answers
+`ErrHashNotFound` and changes nothing — the content committed by the first one stays readable. -/
+theorem second_commit_notfound (s s' : Store) (r : Bytes) (hc : commit s r = (.ok r, s')) :
+    commit s' r = (.notfound, s') := by
+  have hno : lookupTree s'.trees r = none := by
+    unfold commit at hc
+    have hf : ∀ ts : List (Bytes × Option Node), lookupTree (ts.filter (fun p => !(p.1 == r))) r = none := by
+      intro ts
+      simp only [lookupTree]
+      have : (ts.filter (fun p => !(p.1 == r))).find? (fun p => p.1 == r) = none := by
+        apply List.find?_eq_none.mpr
+        intro x hx
+        simp only [List.mem_filter] at hx
+        simpa using hx.2
+      rw [this]
+    split at hc
+    · simp at hc
+    · simp at hc; rw [← hc]; exact hf _
+    · split at hc
+      · simp at hc
+      · simp at hc; rw [← hc]; simpa [Store.cacheTree] using hf _
+  simp [commit, hno]
+
+/-- **commit_exact_content** (◐: assumes C01's `Consistent`) — for the tree that is the entry under `r` when Commit runs, given `Consistent` (no key receives two different records, as in `C01.load_save_partial`): Commit makes
 exactly the pending tree readable at `r`, and keeps every earlier record. -/
-theorem commit_exact_partial (s s' : Store) (r : Bytes) (n : Node)
+theorem commit_exact_content (s s' : Store) (r : Bytes) (n : Node)
     (hp : lookupTree s.trees r = some (some n)) (hr : n.info.hk = some r)
     (hc : commit s r = (.ok r, s'))
     (hps : PersistedStored s.cfg s.db n) (hf : FitsRec n)
@@ -97,7 +146,7 @@ theorem forks_independent (s s' : Store) (r₂ : Bytes) (n₂ : Node)
     (n₁ : Node) (r₁ : Bytes) (h1 : Stored s.cfg s.db n₁) (hf1 : FitsRec n₁) (hr1 : n₁.info.hk = some r₁)
     (fuel : Nat) (top : Bool) (hd : depth n₁ < fuel) :
     load s'.db fuel top r₁ = load s.db fuel top r₁ := by
-  obtain ⟨_, hsub⟩ := commit_exact_partial s s' r₂ n₂ hp hr hc hps hf hcons (depth n₂ + 1) true (by omega)
+  obtain ⟨_, hsub⟩ := commit_exact_content s s' r₂ n₂ hp hr hc hps hf hcons (depth n₂ + 1) true (by omega)
   exact load_stable s.cfg s.db s'.db hsub n₁ h1 hf1 fuel top r₁ hr1 hd
 
 /-- **ops_commute** (for the requests that do not write) — the reply of `MemSet` depends only on the configuration
